@@ -256,6 +256,8 @@ def rich_family(rng, n_masters=2, axes=1, **kw):
                 # a pair present in some masters only; preferably an exception, so that the DS+UFO fallback matters
                 exc = [i for i, e in enumerate(m["kerning"]) if (e[0], e[1]) in (("V", "o"), ("o", "A"), ("e", "public.kern2.A"))]
                 m["kerning"].pop(rng.choice(exc) if exc and rng.random() < 0.7 else rng.randrange(len(m["kerning"])))
+            if rng.random() < 0.15:
+                m["kerning"] = []          # a full master that kerns nothing: every pair is 0 there
         masters.append({"loc": loc, "ufo": m, "name": f"Bold{k}"})
     if len(masters) == 3:
         # any listing order of the sources (the default need not come first) ...
